@@ -593,6 +593,17 @@ class Executor:
             ps = pred_set(pred)
             if a.op in ("const", "special") and b.op in ("const", "special"):
                 return dag.fcmp_eval(pred, float(a.args[0]), float(b.args[0]))
+            if self.realmode and (a.op == "special" or b.op == "special"):
+                # R-semantics: inputs are finite reals;  x ? +-inf is decided
+                def sv(n):
+                    return float(n.args[0]) if n.op == "special" else None
+                va, vb = sv(a), sv(b)
+                if va is not None and va != va or vb is not None and vb != vb:
+                    return UN in ps
+                if va is not None and vb is not None:
+                    return dag.fcmp_eval(pred, va, vb)
+                rel = (LT if vb > 0 else GT) if vb is not None else (GT if va > 0 else LT)
+                return rel in ps
             xkey, c, flip, xdesc = self.canon_cmp(a, b)
             if xkey is None:
                 return bool(ps & {EQ}) if c is True else self._const_rel(c, ps)
